@@ -893,11 +893,37 @@ class Engine:
 
             view_expire = False
             for update, store in deferred_updates:
-                view_expire_update = self.apply_update(update.get(), store)
+                view_expire_update = self.apply_update(
+                    self._collect_update(update, store), store)
                 view_expire = view_expire or view_expire_update
 
             if view_expire:
                 self.state.build_topology_views()
+
+    def _collect_update(self, update: Defer, store: Store) -> Update:
+        """Get a computed update, addressed from where its process is now.
+
+        An update that was applied earlier in the same batch may have
+        moved the compartment of the process since the update was
+        computed: the update goes where the process (and what it is
+        wired to) is, not to the place it has left.
+        """
+        if update.args and isinstance(store, Store):
+            path: Tuple = ()
+            node = store
+            while node is not None and node.outer is not None:
+                key = next(
+                    (key for key, child in node.outer.inner.items()
+                     if child is node), None)
+                if key is None:
+                    # the process was deleted: nothing to re-address
+                    node = None
+                else:
+                    path = (key,) + path
+                    node = node.outer
+            if node is self.state:
+                update.args = (path,) + tuple(update.args[1:])
+        return update.get()
 
     def _send_updates(
             self,
@@ -913,7 +939,8 @@ class Engine:
         view_expire = False
         for update_tuple in update_tuples:
             update, state = update_tuple
-            view_expire_update = self.apply_update(update.get(), state)
+            view_expire_update = self.apply_update(
+                self._collect_update(update, state), state)
             view_expire = view_expire or view_expire_update
 
         if view_expire:
